@@ -1,6 +1,6 @@
 """Grammar-directed family of EXPRESS schemas (valid by construction) and single-fault mutants of them.
 Used by the front-end properties C04, C06, C12, C17, C18, C20 (and, with expref, C07)."""
-import re, os, glob
+import re, itertools, os, glob
 from . import smodel, common
 
 KS = r"""SCHEMA ks;
@@ -145,6 +145,9 @@ MINI = {
                     "FUNCTION f (a : pt; s : seg) : REAL;\n  LOCAL\n    r : REAL := 0.0;\n  END_LOCAL;\n"
                     "  ALIAS b FOR a;\n    r := r + b.x;\n  END_ALIAS;\n  ALIAS c FOR a.l;\n    r := r + c[1];\n  END_ALIAS;\n"
                     "  ALIAS d FOR s.p;\n    r := r + d.x + d.l[1];\n  END_ALIAS;\n  RETURN (r);\nEND_FUNCTION;\nEND_SCHEMA;\n"),
+    # string literals whose value has adjacent apostrophes (four and more consecutive quote characters in the source), short and long
+    'm_quotes': ("SCHEMA m_quotes;\nCONSTANT\n  q2 : STRING := 'a\'\'\'\'b';\n  q3 : STRING := '\'\'\'\'\'\'';\n  q1 : STRING := '\'\'';\n  qe : STRING := 'it\'\'s \'\'\'\'quoted\'\'\'\' twice\'\'';\nEND_CONSTANT;\n"
+                 "ENTITY e; s : STRING;\n DERIVE\n  d : STRING := 'x\'\'\'\'\'\'y';\n WHERE\n  w1 : s <> '" + "''" * 300 + "';\n  w2 : s <> '\'\'\'\'';\nEND_ENTITY;\nEND_SCHEMA;\n"),
     'm_widths': ('SCHEMA m_widths;\nTYPE coarse = REAL (4); END_TYPE;\nTYPE code = STRING (10) FIXED; END_TYPE;\nTYPE nm = STRING (30); END_TYPE;\nTYPE bits = BINARY (8); END_TYPE;\n'
                  'TYPE lr = LIST [1:?] OF REAL (6); END_TYPE;\nENTITY e; a : REAL (3); b : OPTIONAL STRING (5) FIXED; c : ARRAY [1:3] OF REAL (2); d : SET OF STRING (7); k : coarse;\n'
                  ' DERIVE\n  h : REAL (2) := a / 2.0;\nEND_ENTITY;\nFUNCTION f (p : REAL (5); q : STRING (2)) : REAL (8);\n  LOCAL\n    t : REAL (9) := 0.5;\n  END_LOCAL;\n  RETURN (t + p);\nEND_FUNCTION;\nEND_SCHEMA;\n'),
@@ -516,11 +519,22 @@ def diagnostic_catalogue():
         ('empty-select', ['SELECT_EMPTY'], 'zq_s', base + 'TYPE zq_s = SELECT (); END_TYPE;'),
         ('circular-definition', ['CIRCULAR_REFERENCE'], 'zq_t', base + 'TYPE zq_t = LIST OF zq_t; END_TYPE;'),
         ('circular-definition', ['CIRCULAR_REFERENCE'], 'zq_t', base + 'TYPE zq_t = zq_u; END_TYPE;\nTYPE zq_u = zq_t; END_TYPE;'),
+        # the cycle runs through two or three levels of (unnamed) aggregates: the type that is named is still the declared one
+        ('circular-definition', ['CIRCULAR_REFERENCE'], 'zq_t', base + 'TYPE zq_t = LIST OF LIST OF zq_t; END_TYPE;'),
+        ('circular-definition', ['CIRCULAR_REFERENCE'], 'zq_t', base + 'TYPE zq_t = SET OF ARRAY [1:2] OF zq_t; END_TYPE;'),
+        ('circular-definition', ['CIRCULAR_REFERENCE'], 'zq_t', base + 'TYPE zq_t = LIST OF BAG OF LIST OF zq_t; END_TYPE;'),
+        ('circular-definition', ['CIRCULAR_REFERENCE'], 'zq_t', base + 'TYPE zq_t = LIST OF LIST OF zq_u; END_TYPE;\nTYPE zq_u = zq_t; END_TYPE;'),
         ('include-missing', ['INCLUDE_FILE'], 'zq_inc', base + "INCLUDE 'zq_inc.exp';"),
         ('inverse-of-non-entity', ['INVERSE_BAD_ENTITY'], 'zq_a', base + 'TYPE rr = REAL; END_TYPE;\nENTITY e; INVERSE i : SET OF rr FOR zq_a; END_ENTITY;'),
         ('always-true-branch', ['FN_SKIP_BRANCH'], 'true', base + 'FUNCTION f (p : REAL) : REAL; IF TRUE THEN RETURN (p); ELSE RETURN (0.0); END_IF; END_FUNCTION;'),
         ('case-label', ['CASE_SKIP_LABEL'], 'zq_l', base + 'FUNCTION f (p : INTEGER) : REAL; CASE p OF zq_l : RETURN (1.0); OTHERWISE : RETURN (0.0); END_CASE; END_FUNCTION;'),
     ]
+    # identifiers may be long: the quoted name is the whole name, whatever its length (around the sizes of the message buffers)
+    for L in (64, 128, 171, 199, 200, 201, 213, 256):
+        nm = 'zq_' + ('long_name_' * 30)[:L - 3]
+        C.append(('no-such-procedure', ['NO_SUCH_PROCEDURE'], nm, base + 'PROCEDURE q; %s (1.0); END_PROCEDURE;' % nm))
+        C.append(('redeclared-no-such-attribute', ['REDECL_NO_SUCH_ATTR'], nm, base + 'ENTITY e SUBTYPE OF (sup); SELF\\sup.%s : REAL; END_ENTITY;' % nm))
+        C.append(('enum-no-such-item', ['ENUM_NO_SUCH_ITEM'], nm, base + 'ENTITY e; c : col; WHERE w1 : c <> col.%s; END_ENTITY;' % nm))
     for cls, codes, planted, body in C:
         c = {'kind': 'catalogue', 'cls': cls, 'expect': codes, 'detail': codes[0], 'planted': planted, 'name': 'cat', 'text': E(body)}
         if 'zq_u' in body:
@@ -624,6 +638,48 @@ def cyclic_subtypes():
                         leaf = '%s%s\nEND_ENTITY;\n' % (head, body)
                         text = 'SCHEMA cy;\n%s%s%sEND_SCHEMA;\n' % (leaf if pos == 'before' else '', decl, leaf if pos == 'after' else '')
                         out.append(('cycle%d_at%d_%s_%s_%s' % (n, at, how, what, pos), text, cyc[0]))
+    return out
+
+
+def _ordered_subsets(xs):
+    out = [()]
+    for n in range(1, len(xs) + 1):
+        out += list(itertools.permutations(xs, n))
+    return out
+
+
+def _has_cycle(edges, n):
+    color = [0] * n
+    def dfs(u):
+        color[u] = 1
+        for v in edges[u]:
+            if color[v] == 1 or (color[v] == 0 and dfs(v)):
+                return True
+        color[u] = 2
+        return False
+    return any(color[i] == 0 and dfs(i) for i in range(n))
+
+
+def reference_digraphs(kind, tier='quick'):
+    """(name, text, ok) - EVERY digraph on three declarations of one kind, each naming an ordered subset of the other two, under every order of
+    declaration (what the cycle walk meets first depends on both orders): 'select' = SELECT types listing each other (plus one entity),
+    'subtype' = entities naming each other as supertypes.  Valid exactly when the digraph has no cycle."""
+    names = ['zq_a', 'zq_b', 'zq_c']
+    choices = [_ordered_subsets([j for j in range(3) if j != i]) for i in range(3)]
+    out = []
+    for g in itertools.product(*choices):
+        ok = not _has_cycle(g, 3)
+        orders = list(itertools.permutations(range(3))) if (tier == 'thorough' or not ok) else [(0, 1, 2), (2, 1, 0)]
+        for order in orders:
+            decl = []
+            for i in order:
+                if kind == 'select':
+                    decl.append('TYPE %s = SELECT (%s); END_TYPE;' % (names[i], ', '.join([names[j] for j in g[i]] + ['leaf'])))
+                else:
+                    decl.append('ENTITY %s%s; x%d : INTEGER; END_ENTITY;' % (names[i], (' SUBTYPE OF (%s)' % ', '.join(names[j] for j in g[i])) if g[i] else '', i))
+            text = 'SCHEMA dg;\nENTITY leaf; v : INTEGER; END_ENTITY;\n%s\nEND_SCHEMA;\n' % '\n'.join(decl)
+            gname = '_'.join(''.join('abc'[j] for j in g[i]) or '0' for i in range(3))
+            out.append(('%s_%s_order%s' % (kind, gname, ''.join('abc'[i] for i in order)), text, ok))
     return out
 
 def duplicate_kinds():
